@@ -86,12 +86,21 @@ Proof.
   eapply keeps_trans; [apply lazy_expire_keeps | eapply dispatch_command_keeps; exact H].
 Qed.
 
-Lemma exec_queue_keeps now dbi : forall q s acc reps s',
-  exec_queue now s dbi q acc = (reps, s') -> keeps s s'.
+Lemma exec_queue_keeps now c : forall q s dbi acc reps s',
+  exec_queue now s c dbi q acc = (reps, s') -> keeps s s'.
 Proof.
-  induction q as [|parts q IH]; intros s acc reps s' H; cbn [exec_queue] in H; [kdone H|].
-  destruct (normal_command now s 0 dbi parts None) as [rep s1] eqn:E.
-  eapply keeps_trans; [eapply normal_command_keeps; exact E | eapply IH; exact H].
+  induction q as [|parts q IH]; intros s dbi acc reps s' H; cbn [exec_queue] in H; [kdone H|].
+  destruct (beq (queued_name parts) (bs "SELECT")).
+  - destruct (normal_command now s c dbi parts None) as [rep s1] eqn:E.
+    eapply keeps_trans; [eapply normal_command_keeps; exact E | eapply IH; exact H].
+  - destruct (normal_command now s 0 dbi parts None) as [rep s1] eqn:E.
+    eapply keeps_trans; [eapply normal_command_keeps; exact E | eapply IH; exact H].
+Qed.
+
+Lemma unwatch_all_keeps w : forall s, keeps s (unwatch_all s w).
+Proof.
+  unfold unwatch_all. induction w as [|kb w IH]; intros s; cbn [fold_left]; [apply keeps_refl|].
+  eapply keeps_trans; [apply keeps_set_trk | apply IH].
 Qed.
 
 Lemma process_frame_keeps now s c req oracle r s' :
@@ -106,24 +115,24 @@ Proof.
   { destruct (beq (upper (trim b)) (bs "AUTH")); [eapply h_auth_keeps; exact H|].
     destruct (beq (upper (trim b)) (bs "PING")); [kdone H|].
     destruct (beq (upper (trim b)) (bs "QUIT")); kdone H. }
+  destruct (c_intx cn && negb (mem_name (upper (trim b)) tx_not_queued)).
+  { inversion H; subst. apply keeps_set_conn. }
   destruct (beq (upper (trim b)) (bs "MULTI")).
   { destruct (c_intx cn); inversion H; subst; [apply keeps_refl | apply keeps_set_conn]. }
   destruct (beq (upper (trim b)) (bs "EXEC")).
   { unfold h_exec in H. destruct (negb (c_intx cn)); [kdone H|].
-    destruct (existsb _ (c_watched cn)); [inversion H; subst; apply keeps_set_conn|].
-    destruct (exec_queue now (set_conn s c (clear_tx cn)) (c_db cn) (c_queue cn) []) as [reps s2] eqn:E.
+    destruct (watch_violated now s cn); [inversion H; subst; apply keeps_set_conn|].
+    destruct (exec_queue now (set_conn s c (clear_tx cn)) c (c_db cn) (c_queue cn) []) as [reps s2] eqn:E.
     inversion H; subst. eapply keeps_trans; [apply keeps_set_conn | eapply exec_queue_keeps; exact E]. }
   destruct (beq (upper (trim b)) (bs "DISCARD")).
   { destruct (negb (c_intx cn)); inversion H; subst; [apply keeps_refl | apply keeps_set_conn]. }
   destruct (beq (upper (trim b)) (bs "WATCH")).
   { destruct (len (FBulk b :: rest) <? 2); [kdone H|]. destruct (c_intx cn); [kdone H|].
-    destruct (watch_loop_partial (get_trk s (c_db cn)) rest (c_watched cn)) as [[t' w'] okb].
+    destruct (watch_loop_partial (c_db cn) (get_trk s (c_db cn)) rest (c_watched cn)) as [[t' w'] okb].
     inversion H; subst. eapply keeps_trans; [apply keeps_set_trk | apply keeps_set_conn]. }
   destruct (beq (upper (trim b)) (bs "UNWATCH")).
-  { inversion H; subst. eapply keeps_trans; [apply keeps_set_trk | apply keeps_set_conn]. }
+  { inversion H; subst. eapply keeps_trans; [apply unwatch_all_keeps | apply keeps_set_conn]. }
   destruct (beq (upper (trim b)) (bs "AUTH")); [eapply h_auth_keeps; exact H|].
-  destruct (c_intx cn && negb (mem_name (upper (trim b)) tx_not_queued)).
-  { inversion H; subst. apply keeps_set_conn. }
   eapply normal_command_keeps; exact H.
 Qed.
 
@@ -253,6 +262,76 @@ Proof.
     destruct rs; intros H; inversion H; subst; exact G.
 Qed.
 
+(** one queued command at EXEC *)
+Lemma has_conn_h_sub chan s c parts d r s' x : h_sub chan s c parts = (d, r, s') -> has_conn s' x = has_conn s x.
+Proof.
+  unfold h_sub. destruct (len parts <? 2); [intros H; inversion H; subst; reflexivity|].
+  destruct (all_bulk (tl parts)); [|intros H; inversion H; subst; reflexivity].
+  destruct chan; [destruct (subscribe (s_pubsub s) c l) | destruct (psubscribe (s_pubsub s) c l)];
+    intros H; inversion H; subst; reflexivity.
+Qed.
+Lemma has_conn_h_unsub chan s c parts d r s' x : h_unsub chan s c parts = (d, r, s') -> has_conn s' x = has_conn s x.
+Proof.
+  unfold h_unsub.
+  set (reqo := match tl parts with [] => Some None | l => option_map Some (all_bulk l) end).
+  destruct reqo as [req|]; [|intros H; inversion H; subst; reflexivity].
+  destruct chan; [destruct (unsubscribe (s_pubsub s) c req) as [rs p'] | destruct (punsubscribe (s_pubsub s) c req) as [rs p']];
+    destruct rs; intros H; inversion H; subst; reflexivity.
+Qed.
+
+Lemma SrvInv_exec_one now s c dbi parts d reps s' dbi' :
+  SrvInv s -> has_conn s c = true -> exec_one_x now s c dbi parts = (d, reps, s', dbi') ->
+  SrvInv s' /\ has_conn s' c = true.
+Proof.
+  intros HI Hc. unfold exec_one_x.
+  assert (NC : forall cc rep s1, normal_command now s cc dbi parts None = (rep, s1) -> SrvInv s1 /\ has_conn s1 c = true).
+  { intros cc rep s1 E. pose proof (normal_command_keeps _ _ _ _ _ _ _ _ E) as K.
+    split; [eapply SrvInv_keeps; eassumption | apply (proj2 K); exact Hc]. }
+  assert (SUB : forall res d reps s' dbi',
+     (forall d0 r0 s0, res = (d0, r0, s0) -> SrvInv s0 /\ has_conn s0 c = true) ->
+     (match res with
+      | (direct, FNoResponse, s0) => (@nil (Z * frame), map snd direct, s0, dbi)
+      | (direct, r, s0) => (direct, [r], s0, dbi)
+      end) = (d, reps, s', dbi') -> SrvInv s' /\ has_conn s' c = true).
+  { intros [[d0 r0] s0] d1 reps1 s1 dbi1 A H. specialize (A d0 r0 s0 eq_refl).
+    destruct r0; inversion H; subst; exact A. }
+  destruct (beq (queued_name parts) (bs "SELECT")).
+  { destruct (normal_command now s c dbi parts None) as [rep s1] eqn:E. intros H; inversion H; subst. eapply NC; exact E. }
+  destruct (beq (queued_name parts) (bs "PUBLISH")).
+  { destruct (h_publish s parts) as [[d0 r0] s0] eqn:E. intros H; inversion H; subst.
+    apply h_publish_state in E. subst. auto. }
+  destruct (beq (queued_name parts) (bs "SUBSCRIBE")).
+  { apply SUB. intros d0 r0 s0 E. split; [eapply SrvInv_h_sub; eassumption | rewrite (has_conn_h_sub _ _ _ _ _ _ _ c E); exact Hc]. }
+  destruct (beq (queued_name parts) (bs "PSUBSCRIBE")).
+  { apply SUB. intros d0 r0 s0 E. split; [eapply SrvInv_h_sub; eassumption | rewrite (has_conn_h_sub _ _ _ _ _ _ _ c E); exact Hc]. }
+  destruct (beq (queued_name parts) (bs "UNSUBSCRIBE")).
+  { apply SUB. intros d0 r0 s0 E. split; [eapply SrvInv_h_unsub; eassumption | rewrite (has_conn_h_unsub _ _ _ _ _ _ _ c E); exact Hc]. }
+  destruct (beq (queued_name parts) (bs "PUNSUBSCRIBE")).
+  { apply SUB. intros d0 r0 s0 E. split; [eapply SrvInv_h_unsub; eassumption | rewrite (has_conn_h_unsub _ _ _ _ _ _ _ c E); exact Hc]. }
+  destruct (beq (queued_name parts) (bs "AUTH")).
+  { destruct (h_auth s c parts) as [r0 s0] eqn:E. intros H; inversion H; subst.
+    pose proof (h_auth_keeps _ _ _ _ _ E) as K. split; [eapply SrvInv_keeps; eassumption | apply (proj2 K); exact Hc]. }
+  destruct (normal_command now s 0 dbi parts None) as [rep s1] eqn:E. intros H; inversion H; subst. eapply NC; exact E.
+Qed.
+Lemma SrvInv_exec_queue now c : forall q s dbi dacc acc d reps s',
+  SrvInv s -> has_conn s c = true -> exec_queue_x now s c dbi q dacc acc = (d, reps, s') -> SrvInv s'.
+Proof.
+  induction q as [|parts q IH]; intros s dbi dacc acc d reps s' HI Hc H; cbn [exec_queue_x] in H.
+  - inversion H; subst. exact HI.
+  - destruct (exec_one_x now s c dbi parts) as [[[d1 r1] s1] dbi1] eqn:E.
+    destruct (SrvInv_exec_one _ _ _ _ _ _ _ _ _ HI Hc E) as [A B]. eapply IH; eassumption.
+Qed.
+Lemma SrvInv_h_exec_x now s c cn d r s' :
+  SrvInv s -> zlookup c (s_conns s) = Some cn -> h_exec_x now s c cn = (d, r, s') -> SrvInv s'.
+Proof.
+  intros HI L. unfold h_exec_x. destruct (negb (c_intx cn)); [intros H; inversion H; subst; exact HI|].
+  assert (K : SrvInv (set_conn s c (clear_tx cn))) by (eapply SrvInv_keeps; [apply keeps_set_conn | exact HI]).
+  destruct (watch_violated now s cn); [intros H; inversion H; subst; exact K|].
+  destruct (exec_queue_x now (set_conn s c (clear_tx cn)) c (c_db cn) (c_queue cn) [] []) as [[d0 r0] s0] eqn:E.
+  intros H; inversion H; subst. eapply SrvInv_exec_queue; [exact K | | exact E].
+  rewrite has_conn_set_conn, Z.eqb_refl. reflexivity.
+Qed.
+
 Lemma SrvInv_step now s c req oracle d r s' :
   SrvInv s -> process_frame_x now s c req oracle = (d, r, s') -> SrvInv s'.
 Proof.
@@ -266,14 +345,14 @@ Proof.
   destruct (zlookup c (s_conns s)) as [cn|] eqn:L; [|apply Other].
   assert (Hc : has_conn s c = true) by (unfold has_conn; rewrite L; reflexivity).
   destruct ((match s_password s with Some _ => true | None => false end) && negb (c_auth cn)); [apply Other|].
+  destruct (c_intx cn && negb (mem_name (upper (trim b)) tx_not_queued)); [apply Other|].
+  destruct (beq (upper (trim b)) (bs "EXEC")); [intros H; eapply SrvInv_h_exec_x; eassumption|].
   destruct (beq (upper (trim b)) (bs "PUBLISH")).
   { intros H. apply h_publish_state in H. subst. exact HI. }
   destruct (beq (upper (trim b)) (bs "SUBSCRIBE")); [intros H; eapply SrvInv_h_sub; eassumption|].
   destruct (beq (upper (trim b)) (bs "PSUBSCRIBE")); [intros H; eapply SrvInv_h_sub; eassumption|].
-  destruct (beq (upper (trim b)) (bs "UNSUBSCRIBE")).
-  { intros H. eapply SrvInv_h_unsub; eassumption. }
-  destruct (beq (upper (trim b)) (bs "PUNSUBSCRIBE")).
-  { intros H. eapply SrvInv_h_unsub; eassumption. }
+  destruct (beq (upper (trim b)) (bs "UNSUBSCRIBE")); [intros H; eapply SrvInv_h_unsub; eassumption|].
+  destruct (beq (upper (trim b)) (bs "PUNSUBSCRIBE")); [intros H; eapply SrvInv_h_unsub; eassumption|].
   apply Other.
 Qed.
 
@@ -342,9 +421,11 @@ Proof.
 Qed.
 
 (** ---- a PUBLISH step ---- *)
+(** a connection that has passed the authentication gate and is not inside MULTI *)
 Definition open_conn (s : server) (c : Z) : Prop :=
   exists cn, zlookup c (s_conns s) = Some cn /\
-             (match s_password s with Some _ => true | None => false end) && negb (c_auth cn) = false.
+             (match s_password s with Some _ => true | None => false end) && negb (c_auth cn) = false /\
+             c_intx cn = false.
 Definition publish_req (ch msg : bytes) : frame := FArray [FBulk (bs "PUBLISH"); FBulk ch; FBulk msg].
 
 Lemma trim_upper_lit : upper (trim (bs "PUBLISH")) = bs "PUBLISH".
@@ -355,8 +436,9 @@ Lemma publish_step now s c ch msg oracle :
   process_frame_x now s c (publish_req ch msg) oracle =
   (map (push_frame ch msg) (publish (s_pubsub s) ch), FInt (len (publish (s_pubsub s) ch)), s).
 Proof.
-  intros [I C] [cn [L G]]. unfold process_frame_x, publish_req. rewrite L, G, trim_upper_lit.
-  cbn [beq]. change (beq (bs "PUBLISH") (bs "PUBLISH")) with true. cbn iota.
+  intros [I C] [cn [L [G T]]]. unfold process_frame_x, publish_req. rewrite L, G, T, trim_upper_lit.
+  cbn [andb]. change (beq (bs "PUBLISH") (bs "EXEC")) with false.
+  change (beq (bs "PUBLISH") (bs "PUBLISH")) with true. cbn iota.
   unfold h_publish.
   assert (F : filter (fun r => has_conn s (fst r)) (publish (s_pubsub s) ch) = publish (s_pubsub s) ch).
   { apply filter_all_id. intros [x t] Hx. cbn [fst].
@@ -439,25 +521,25 @@ Qed.
 
 Lemma nonpublish_silent now s c req oracle dct r s' d :
   process_frame_x now s c req oracle = (dct, r, s') ->
-  beq (req_command req) (bs "PUBLISH") = false -> d <> c -> stream_of d dct = [].
+  beq (req_command req) (bs "PUBLISH") = false -> beq (req_command req) (bs "EXEC") = false ->
+  d <> c -> stream_of d dct = [].
 Proof.
   unfold process_frame_x, req_command.
   assert (Other : forall dct r s', (match process_frame now s c req oracle with (r0, s0) => (@nil (Z * frame), r0, s0) end) = (dct, r, s') -> stream_of d dct = []).
   { intros d0 r0 s0 H. destruct (process_frame now s c req oracle). inversion H; subst. reflexivity. }
-  destruct req; try (intros H _ _; eapply Other; exact H).
-  destruct l as [|first rest]; [intros H _ _; eapply Other; exact H|].
-  destruct first; try (intros H _ _; eapply Other; exact H).
-  destruct (zlookup c (s_conns s)) as [cn|]; [|intros H _ _; eapply Other; exact H].
+  destruct req; try (intros H _ _ _; eapply Other; exact H).
+  destruct l as [|first rest]; [intros H _ _ _; eapply Other; exact H|].
+  destruct first; try (intros H _ _ _; eapply Other; exact H).
+  destruct (zlookup c (s_conns s)) as [cn|]; [|intros H _ _ _; eapply Other; exact H].
   destruct ((match s_password s with Some _ => true | None => false end) && negb (c_auth cn));
-    [intros H _ _; eapply Other; exact H|].
-  intros H NP N. rewrite NP in H.
+    [intros H _ _ _; eapply Other; exact H|].
+  destruct (c_intx cn && negb (mem_name (upper (trim b)) tx_not_queued)); [intros H _ _ _; eapply Other; exact H|].
+  intros H NP NE N. rewrite NP, NE in H.
   pose proof (stream_to_issuer d c dct N) as ToC.
   destruct (beq (upper (trim b)) (bs "SUBSCRIBE")); [apply ToC; intros x; eapply direct_to_issuer_sub; exact H|].
   destruct (beq (upper (trim b)) (bs "PSUBSCRIBE")); [apply ToC; intros x; eapply direct_to_issuer_sub; exact H|].
-  destruct (beq (upper (trim b)) (bs "UNSUBSCRIBE")).
-  { apply ToC; intros x; eapply direct_to_issuer_unsub; exact H. }
-  destruct (beq (upper (trim b)) (bs "PUNSUBSCRIBE")).
-  { apply ToC; intros x; eapply direct_to_issuer_unsub; exact H. }
+  destruct (beq (upper (trim b)) (bs "UNSUBSCRIBE")); [apply ToC; intros x; eapply direct_to_issuer_unsub; exact H|].
+  destruct (beq (upper (trim b)) (bs "PUNSUBSCRIBE")); [apply ToC; intros x; eapply direct_to_issuer_unsub; exact H|].
   eapply Other; exact H.
 Qed.
 
@@ -601,6 +683,68 @@ Proof.
   exists b. apply in_map_iff. exists rcv. split; [destruct rcv; reflexivity | exact X].
 Qed.
 
+(** a queued command run at EXEC by another connection neither subscribes c nor writes to it *)
+Lemma exec_one_unsubscribed now s c' dbi parts d reps s' dbi' c :
+  c' <> c -> SrvInv s -> unsubscribed (s_pubsub s) c ->
+  exec_one_x now s c' dbi parts = (d, reps, s', dbi') ->
+  unsubscribed (s_pubsub s') c /\ stream_of c d = [].
+Proof.
+  intros N HI U. unfold exec_one_x.
+  assert (NC : forall cc rep s1, normal_command now s cc dbi parts None = (rep, s1) -> unsubscribed (s_pubsub s1) c).
+  { intros cc rep s1 E. rewrite (proj1 (normal_command_keeps _ _ _ _ _ _ _ _ E)). exact U. }
+  assert (SUB : forall res d reps s' dbi',
+     (forall d0 r0 s0, res = (d0, r0, s0) -> unsubscribed (s_pubsub s0) c /\ (r0 <> FNoResponse -> d0 = [])) ->
+     (match res with
+      | (direct, FNoResponse, s0) => (@nil (Z * frame), map snd direct, s0, dbi)
+      | (direct, r, s0) => (direct, [r], s0, dbi)
+      end) = (d, reps, s', dbi') -> unsubscribed (s_pubsub s') c /\ stream_of c d = []).
+  { intros [[d0 r0] s0] d1 reps1 s1 dbi1 A H. destruct (A d0 r0 s0 eq_refl) as [A1 A2].
+    destruct r0; inversion H; subst; (split; [exact A1|]); try reflexivity; rewrite A2 by discriminate; reflexivity. }
+  assert (HS : forall chan d0 r0 s0, h_sub chan s c' parts = (d0, r0, s0) -> unsubscribed (s_pubsub s0) c /\ (r0 <> FNoResponse -> d0 = [])).
+  { intros chan d0 r0 s0 E. split; [eapply h_sub_unsubscribed; eassumption|].
+    revert E. unfold h_sub. destruct (len parts <? 2); [intros E _; inversion E; reflexivity|].
+    destruct (all_bulk (tl parts)); [|intros E _; inversion E; reflexivity].
+    destruct chan; [destruct (subscribe (s_pubsub s) c' l) | destruct (psubscribe (s_pubsub s) c' l)];
+      intros E X; inversion E; subst; contradiction. }
+  assert (HU : forall chan d0 r0 s0, h_unsub chan s c' parts = (d0, r0, s0) -> unsubscribed (s_pubsub s0) c /\ (r0 <> FNoResponse -> d0 = [])).
+  { intros chan d0 r0 s0 E. split; [eapply h_unsub_unsubscribed; eassumption|].
+    revert E. unfold h_unsub.
+    set (reqo := match tl parts with [] => Some None | l => option_map Some (all_bulk l) end).
+    destruct reqo as [req|]; [|intros E _; inversion E; reflexivity].
+    destruct chan; [destruct (unsubscribe (s_pubsub s) c' req) as [rs p'] | destruct (punsubscribe (s_pubsub s) c' req) as [rs p']];
+      destruct rs; intros E X; inversion E; subst; contradiction. }
+  destruct (beq (queued_name parts) (bs "SELECT")).
+  { destruct (normal_command now s c' dbi parts None) as [rep s1] eqn:E. intros H; inversion H; subst. split; [eapply NC; exact E | reflexivity]. }
+  destruct (beq (queued_name parts) (bs "PUBLISH")).
+  { destruct (h_publish s parts) as [[d0 r0] s0] eqn:E. intros H; inversion H; subst.
+    pose proof (h_publish_state _ _ _ _ _ E) as ->. split; [exact U|].
+    unfold stream_of. destruct (filter (fun e => fst e =? c) d) as [|x l] eqn:F; [reflexivity|].
+    exfalso. assert (X : In x (filter (fun e => fst e =? c) d)) by (rewrite F; simpl; auto).
+    apply filter_In in X. destruct X as [X Q]. apply Z.eqb_eq in Q.
+    destruct (h_publish_direct _ _ _ _ _ _ E X) as [ch Y]. rewrite Q in Y.
+    exact (unsubscribed_no_delivery _ ch c (proj1 HI) U Y). }
+  destruct (beq (queued_name parts) (bs "SUBSCRIBE")); [apply SUB; apply HS|].
+  destruct (beq (queued_name parts) (bs "PSUBSCRIBE")); [apply SUB; apply HS|].
+  destruct (beq (queued_name parts) (bs "UNSUBSCRIBE")); [apply SUB; apply HU|].
+  destruct (beq (queued_name parts) (bs "PUNSUBSCRIBE")); [apply SUB; apply HU|].
+  destruct (beq (queued_name parts) (bs "AUTH")).
+  { destruct (h_auth s c' parts) as [r0 s0] eqn:E. intros H; inversion H; subst.
+    rewrite (proj1 (h_auth_keeps _ _ _ _ _ E)). auto. }
+  destruct (normal_command now s 0 dbi parts None) as [rep s1] eqn:E. intros H; inversion H; subst. split; [eapply NC; exact E | reflexivity].
+Qed.
+Lemma exec_queue_unsubscribed now c' c : c' <> c -> forall q s dbi dacc acc d reps s',
+  SrvInv s -> has_conn s c' = true -> unsubscribed (s_pubsub s) c -> stream_of c dacc = [] ->
+  exec_queue_x now s c' dbi q dacc acc = (d, reps, s') ->
+  unsubscribed (s_pubsub s') c /\ stream_of c d = [].
+Proof.
+  intros N. induction q as [|parts q IH]; intros s dbi dacc acc d reps s' HI Hc U D H; cbn [exec_queue_x] in H.
+  - inversion H; subst. auto.
+  - destruct (exec_one_x now s c' dbi parts) as [[[d1 r1] s1] dbi1] eqn:E.
+    destruct (SrvInv_exec_one _ _ _ _ _ _ _ _ _ HI Hc E) as [A B].
+    destruct (exec_one_unsubscribed _ _ _ _ _ _ _ _ _ c N HI U E) as [U1 D1].
+    eapply (IH s1 dbi1 (dacc ++ d1) (acc ++ r1)); [exact A | exact B | exact U1 | rewrite stream_of_app, D, D1; reflexivity | exact H].
+Qed.
+
 (** a request of another connection neither subscribes c nor writes to it *)
 Lemma step_unsubscribed now s c' req oracle d r s' c :
   c' <> c -> SrvInv s -> unsubscribed (s_pubsub s) c ->
@@ -615,9 +759,18 @@ Proof.
   destruct req; try apply Other.
   destruct l as [|first rest]; [apply Other|].
   destruct first; try apply Other.
-  destruct (zlookup c' (s_conns s)) as [cn|]; [|apply Other].
+  destruct (zlookup c' (s_conns s)) as [cn|] eqn:L; [|apply Other].
   destruct ((match s_password s with Some _ => true | None => false end) && negb (c_auth cn)); [apply Other|].
+  destruct (c_intx cn && negb (mem_name (upper (trim b)) tx_not_queued)); [apply Other|].
   assert (N' : c <> c') by congruence.
+  destruct (beq (upper (trim b)) (bs "EXEC")).
+  { unfold h_exec_x. destruct (negb (c_intx cn)); [intros H; inversion H; subst; auto|].
+    destruct (watch_violated now s cn); [intros H; inversion H; subst; auto|].
+    destruct (exec_queue_x now (set_conn s c' (clear_tx cn)) c' (c_db cn) (c_queue cn) [] []) as [[d0 r0] s0] eqn:E.
+    intros H; inversion H; subst.
+    eapply (exec_queue_unsubscribed now c' c N); [ | | | | exact E]; auto.
+    - eapply SrvInv_keeps; [apply keeps_set_conn | exact HI].
+    - rewrite has_conn_set_conn, Z.eqb_refl. reflexivity. }
   destruct (beq (upper (trim b)) (bs "PUBLISH")).
   { intros H. pose proof (h_publish_state _ _ _ _ _ H) as ->. split; [exact U|].
     unfold stream_of. destruct (filter (fun e => fst e =? c) d) as [|x l] eqn:F; [reflexivity|].
@@ -693,7 +846,7 @@ Qed.
 Definition no_pubsub (req : frame) : bool :=
   let n := req_command req in
   negb (beq n (bs "PUBLISH") || beq n (bs "SUBSCRIBE") || beq n (bs "PSUBSCRIBE")
-        || beq n (bs "UNSUBSCRIBE") || beq n (bs "PUNSUBSCRIBE")).
+        || beq n (bs "UNSUBSCRIBE") || beq n (bs "PUNSUBSCRIBE") || beq n (bs "EXEC")).
 
 Lemma process_frame_x_plain now s c req oracle :
   no_pubsub req = true ->
@@ -707,9 +860,62 @@ Proof.
   destruct req; try exact O. destruct l as [|first rest]; [exact O|]. destruct first; try exact O.
   destruct (zlookup c (s_conns s)); [|exact O].
   destruct ((match s_password s with Some _ => true | None => false end) && negb (c_auth c0)); [exact O|].
+  destruct (c_intx c0 && negb (mem_name (upper (trim b)) tx_not_queued)); [exact O|].
   unfold no_pubsub, req_command in H. apply negb_true_iff in H.
   repeat (apply orb_false_iff in H; destruct H as [H ?]).
-  rewrite H, H3, H2, H1, H0. exact O.
+  rewrite H, H4, H3, H2, H1, H0. exact O.
+Qed.
+
+(** EXEC whose queue holds no PUBLISH / (P)SUBSCRIBE / (P)UNSUBSCRIBE / AUTH: the pub/sub-aware
+    executor is the plain one (C07's h_exec) and writes nothing directly *)
+Definition plain_queued (parts : list frame) : bool :=
+  let n := queued_name parts in
+  negb (beq n (bs "PUBLISH") || beq n (bs "SUBSCRIBE") || beq n (bs "PSUBSCRIBE")
+        || beq n (bs "UNSUBSCRIBE") || beq n (bs "PUNSUBSCRIBE") || beq n (bs "AUTH")).
+
+Lemma exec_one_x_plain now s c dbi parts :
+  plain_queued parts = true ->
+  exec_one_x now s c dbi parts =
+  (if beq (queued_name parts) (bs "SELECT") then
+     match normal_command now s c dbi parts None with
+     | (rep, s') => ([], [rep], s', match zlookup c (s_conns s') with Some cn => c_db cn | None => dbi end)
+     end
+   else match normal_command now s 0 dbi parts None with (rep, s') => ([], [rep], s', dbi) end).
+Proof.
+  intros H. unfold exec_one_x. destruct (beq (queued_name parts) (bs "SELECT")); [reflexivity|].
+  unfold plain_queued in H. apply negb_true_iff in H.
+  repeat (apply orb_false_iff in H; destruct H as [H ?]).
+  rewrite H, H4, H3, H2, H1, H0. reflexivity.
+Qed.
+
+Lemma exec_queue_x_plain now c : forall q s dbi dacc acc,
+  forallb plain_queued q = true ->
+  exec_queue_x now s c dbi q dacc acc =
+  (dacc, acc ++ fst (exec_queue now s c dbi q []), snd (exec_queue now s c dbi q [])).
+Proof.
+  induction q as [|parts q IH]; intros s dbi dacc acc H; cbn [exec_queue_x exec_queue].
+  - cbn [rev fst snd]. rewrite app_nil_r. reflexivity.
+  - cbn [forallb] in H. apply andb_prop in H. destruct H as [Hp Hq].
+    rewrite (exec_one_x_plain now s c dbi parts Hp).
+    destruct (beq (queued_name parts) (bs "SELECT")).
+    + destruct (normal_command now s c dbi parts None) as [rep s1].
+      rewrite (IH _ _ _ _ Hq), (exec_queue_acc now c q s1 _ [rep]).
+      destruct (exec_queue now s1 c _ q []) as [reps s2]. cbn [fst snd rev app].
+      rewrite app_nil_r, <- app_assoc. reflexivity.
+    + destruct (normal_command now s 0 dbi parts None) as [rep s1].
+      rewrite (IH _ _ _ _ Hq), (exec_queue_acc now c q s1 _ [rep]).
+      destruct (exec_queue now s1 c dbi q []) as [reps s2]. cbn [fst snd rev app].
+      rewrite app_nil_r, <- app_assoc. reflexivity.
+Qed.
+
+Lemma h_exec_x_plain now s c cn :
+  forallb plain_queued (c_queue cn) = true ->
+  h_exec_x now s c cn = ([], fst (h_exec now s c cn), snd (h_exec now s c cn)).
+Proof.
+  intros H. unfold h_exec_x, h_exec. destruct (negb (c_intx cn)); [reflexivity|].
+  destruct (watch_violated now s cn); [reflexivity|].
+  rewrite (exec_queue_x_plain now c _ _ _ [] [] H).
+  destruct (exec_queue now (set_conn s c (clear_tx cn)) c (c_db cn) (c_queue cn) []) as [reps s2]. reflexivity.
 Qed.
 
 Lemma drop_noresp_app a b : drop_noresp (a ++ b) = drop_noresp a ++ drop_noresp b.
@@ -743,4 +949,156 @@ Proof.
     rewrite A. cbn [rev app]. destruct flush.
     + cbn [app]. change (rep :: reps) with ([rep] ++ reps). rewrite !drop_noresp_app, drop_noresp_idem, <- !app_assoc. reflexivity.
     + cbn [app]. rewrite <- !app_assoc. reflexivity.
+Qed.
+
+(** ---- transactions (51742a5: pub/sub commands are queued inside MULTI and run at EXEC) ---- *)
+Definition in_tx (s : server) (c : Z) (cn : conn) : Prop :=
+  zlookup c (s_conns s) = Some cn /\
+  (match s_password s with Some _ => true | None => false end) && negb (c_auth cn) = false /\
+  c_intx cn = true.
+
+(** inside MULTI every command but the five control commands is only queued: nothing is written
+    to anybody, no subscription changes *)
+Lemma queued_inert now s c cn nm rest oracle :
+  in_tx s c cn -> mem_name (upper (trim nm)) tx_not_queued = false ->
+  process_frame_x now s c (FArray (FBulk nm :: rest)) oracle =
+  ([], FSimple (bs "QUEUED"), set_conn s c (with_tx cn true (c_queue cn ++ [FBulk nm :: rest]) (c_watched cn))).
+Proof.
+  intros [L [G T]] Q. unfold process_frame_x, process_frame. rewrite L. cbn iota beta. rewrite G, T, Q. reflexivity.
+Qed.
+Lemma set_conn_pubsub s c cn : s_pubsub (set_conn s c cn) = s_pubsub s.
+Proof. reflexivity. Qed.
+
+(** DISCARD, and an EXEC aborted by a WATCH violation, drop the queue: nothing was and nothing is
+    delivered, no subscription changed *)
+Lemma discard_inert now s c cn oracle :
+  in_tx s c cn ->
+  process_frame_x now s c (FArray [FBulk (bs "DISCARD")]) oracle = ([], r_ok, set_conn s c (clear_tx cn)).
+Proof.
+  intros [L [G T]]. unfold process_frame_x, process_frame. rewrite L. cbn iota beta. rewrite G, T.
+  change (upper (trim (bs "DISCARD"))) with (bs "DISCARD").
+  change (mem_name (bs "DISCARD") tx_not_queued) with true. cbn [andb negb].
+  change (beq (bs "DISCARD") (bs "MULTI")) with false. change (beq (bs "DISCARD") (bs "EXEC")) with false.
+  change (beq (bs "DISCARD") (bs "DISCARD")) with true. cbn iota. reflexivity.
+Qed.
+Lemma exec_aborted_inert now s c cn oracle :
+  in_tx s c cn -> watch_violated now s cn = true ->
+  process_frame_x now s c (FArray [FBulk (bs "EXEC")]) oracle = ([], FNullArray, set_conn s c (clear_tx cn)).
+Proof.
+  intros [L [G T]] W. unfold process_frame_x. rewrite L, G, T.
+  change (upper (trim (bs "EXEC"))) with (bs "EXEC").
+  change (mem_name (bs "EXEC") tx_not_queued) with true. cbn [andb negb].
+  change (beq (bs "EXEC") (bs "EXEC")) with true. cbn iota.
+  unfold h_exec_x. rewrite T, W. reflexivity.
+Qed.
+
+(** EXEC that is not aborted runs the queue through the pub/sub-aware executor *)
+Lemma exec_runs_x now s c cn oracle :
+  in_tx s c cn -> watch_violated now s cn = false ->
+  process_frame_x now s c (FArray [FBulk (bs "EXEC")]) oracle =
+  match exec_queue_x now (set_conn s c (clear_tx cn)) c (c_db cn) (c_queue cn) [] [] with
+  | (direct, reps, s2) => (direct, FArray reps, s2)
+  end.
+Proof.
+  intros [L [G T]] W. unfold process_frame_x. rewrite L, G, T.
+  change (upper (trim (bs "EXEC"))) with (bs "EXEC").
+  change (mem_name (bs "EXEC") tx_not_queued) with true. cbn [andb negb].
+  change (beq (bs "EXEC") (bs "EXEC")) with true. cbn iota.
+  unfold h_exec_x. rewrite T, W. reflexivity.
+Qed.
+
+(** the accumulators are prefixes: direct frames and reply elements come out in queue order *)
+Lemma exec_queue_x_acc now c : forall q s dbi dacc acc,
+  exec_queue_x now s c dbi q dacc acc =
+  match exec_queue_x now s c dbi q [] [] with (d, r, s') => (dacc ++ d, acc ++ r, s') end.
+Proof.
+  induction q as [|parts q IH]; intros s dbi dacc acc; cbn [exec_queue_x].
+  - rewrite !app_nil_r. reflexivity.
+  - destruct (exec_one_x now s c dbi parts) as [[[d1 r1] s1] dbi1].
+    rewrite (IH s1 dbi1 (dacc ++ d1) (acc ++ r1)), (IH s1 dbi1 ([] ++ d1) ([] ++ r1)).
+    destruct (exec_queue_x now s1 c dbi1 q [] []) as [[d r] s']. cbn [app]. rewrite !app_assoc. reflexivity.
+Qed.
+Lemma exec_queue_x_cons now c parts q s dbi :
+  exec_queue_x now s c dbi (parts :: q) [] [] =
+  match exec_one_x now s c dbi parts with
+  | (d1, r1, s1, dbi1) =>
+      match exec_queue_x now s1 c dbi1 q [] [] with (d, r, s') => (d1 ++ d, r1 ++ r, s') end
+  end.
+Proof.
+  cbn [exec_queue_x]. destruct (exec_one_x now s c dbi parts) as [[[d1 r1] s1] dbi1].
+  rewrite exec_queue_x_acc. reflexivity.
+Qed.
+
+(** a queued PUBLISH runs the very handler a direct PUBLISH runs, in the state reached at that point
+    of the queue: same receiver list, same frames, the count in its slot of the EXEC reply *)
+Lemma exec_one_publish now s c dbi parts :
+  queued_name parts = bs "PUBLISH" ->
+  exec_one_x now s c dbi parts =
+  match h_publish s parts with (d, r, s') => (d, [r], s', dbi) end.
+Proof.
+  intros Q. unfold exec_one_x. rewrite Q.
+  change (beq (bs "PUBLISH") (bs "SELECT")) with false. change (beq (bs "PUBLISH") (bs "PUBLISH")) with true.
+  reflexivity.
+Qed.
+Lemma direct_publish_handler now s c cn nm rest oracle :
+  zlookup c (s_conns s) = Some cn ->
+  (match s_password s with Some _ => true | None => false end) && negb (c_auth cn) = false ->
+  c_intx cn = false -> upper (trim nm) = bs "PUBLISH" ->
+  process_frame_x now s c (FArray (FBulk nm :: rest)) oracle = h_publish s (FBulk nm :: rest).
+Proof.
+  intros L G T Q. unfold process_frame_x. rewrite L, G, T, Q. cbn [andb].
+  change (beq (bs "PUBLISH") (bs "EXEC")) with false. change (beq (bs "PUBLISH") (bs "PUBLISH")) with true.
+  reflexivity.
+Qed.
+Lemma exec_one_publish_req now s c dbi ch msg :
+  SrvInv s ->
+  exec_one_x now s c dbi [FBulk (bs "PUBLISH"); FBulk ch; FBulk msg] =
+  (map (push_frame ch msg) (publish (s_pubsub s) ch), [FInt (len (publish (s_pubsub s) ch))], s, dbi).
+Proof.
+  intros [I C]. rewrite exec_one_publish by reflexivity. unfold h_publish.
+  assert (F : filter (fun r => has_conn s (fst r)) (publish (s_pubsub s) ch) = publish (s_pubsub s) ch).
+  { apply filter_all_id. intros [x t] Hx. cbn [fst].
+    apply C. apply (In_publish _ _ _ _ I) in Hx. apply is_subscribed_lookup.
+    unfold is_matching, chan_subs, pat_subs, cinfo in Hx.
+    destruct (clookup x (ps_conns (s_pubsub s))) as [i|]; [eauto|].
+    destruct t; simpl in Hx; [destruct Hx as [[] _] | destruct Hx]. }
+  rewrite F. reflexivity.
+Qed.
+
+(** a queued (P)SUBSCRIBE / (P)UNSUBSCRIBE runs the handler of the direct command for the connection
+    that sent EXEC; its confirmations - the manager's counts - become elements of the EXEC reply and
+    nothing is written directly *)
+Lemma exec_one_sub now s c dbi parts (chan : bool) names :
+  queued_name parts = (if chan then bs "SUBSCRIBE" else bs "PSUBSCRIBE") ->
+  2 <= len parts -> all_bulk (tl parts) = Some names ->
+  exec_one_x now s c dbi parts =
+  (let kind := if chan then bs "subscribe" else bs "psubscribe" in
+   let res := if chan then subscribe (s_pubsub s) c names else psubscribe (s_pubsub s) c names in
+   ([], map (fun r => ack_frame kind (r_name r) (r_count r)) (fst res), set_pubsub s (snd res), dbi)).
+Proof.
+  intros Q L A. unfold exec_one_x. rewrite Q.
+  destruct chan.
+  - change (beq (bs "SUBSCRIBE") (bs "SELECT")) with false. change (beq (bs "SUBSCRIBE") (bs "PUBLISH")) with false.
+    change (beq (bs "SUBSCRIBE") (bs "SUBSCRIBE")) with true. cbn iota.
+    rewrite (sub_step_acks true s c parts names L A). cbv beta zeta iota. rewrite map_map. reflexivity.
+  - change (beq (bs "PSUBSCRIBE") (bs "SELECT")) with false. change (beq (bs "PSUBSCRIBE") (bs "PUBLISH")) with false.
+    change (beq (bs "PSUBSCRIBE") (bs "SUBSCRIBE")) with false. change (beq (bs "PSUBSCRIBE") (bs "PSUBSCRIBE")) with true. cbn iota.
+    rewrite (sub_step_acks false s c parts names L A). cbv beta zeta iota. rewrite map_map. reflexivity.
+Qed.
+Lemma exec_one_unsub now s c dbi parts (chan : bool) :
+  queued_name parts = (if chan then bs "UNSUBSCRIBE" else bs "PUNSUBSCRIBE") ->
+  exec_one_x now s c dbi parts =
+  match h_unsub chan s c parts with
+  | (direct, FNoResponse, s') => ([], map snd direct, s', dbi)
+  | (direct, r, s') => (direct, [r], s', dbi)
+  end.
+Proof.
+  intros Q. unfold exec_one_x. rewrite Q. destruct chan.
+  - change (beq (bs "UNSUBSCRIBE") (bs "SELECT")) with false. change (beq (bs "UNSUBSCRIBE") (bs "PUBLISH")) with false.
+    change (beq (bs "UNSUBSCRIBE") (bs "SUBSCRIBE")) with false. change (beq (bs "UNSUBSCRIBE") (bs "PSUBSCRIBE")) with false.
+    change (beq (bs "UNSUBSCRIBE") (bs "UNSUBSCRIBE")) with true. reflexivity.
+  - change (beq (bs "PUNSUBSCRIBE") (bs "SELECT")) with false. change (beq (bs "PUNSUBSCRIBE") (bs "PUBLISH")) with false.
+    change (beq (bs "PUNSUBSCRIBE") (bs "SUBSCRIBE")) with false. change (beq (bs "PUNSUBSCRIBE") (bs "PSUBSCRIBE")) with false.
+    change (beq (bs "PUNSUBSCRIBE") (bs "UNSUBSCRIBE")) with false. change (beq (bs "PUNSUBSCRIBE") (bs "PUNSUBSCRIBE")) with true.
+    reflexivity.
 Qed.
